@@ -1,5 +1,6 @@
 import Tahoe.Base.FsOp
 import Tahoe.Storage.Immutable
+import Tahoe.Storage.Mutable
 /-!
 Tahoe.Storage.Crash — the immutable storage operations (C22 model) given as the list of primitive
 file operations they perform, in program order (C29).  A crash is a prefix of that list; restart =
@@ -108,5 +109,26 @@ def fsOfServer (s : Server) : IFs := fun p =>
   | .fin k => getK k s.final
   | .inc k => (getK k s.incoming).map (·.2)
   | _ => none
+
+/-! ### mutable containers: the extra-lease append of `MutableShareFile.add_lease`
+
+When the four lease slots of the header and every extra slot are occupied, `_write_lease_record`
+first writes the incremented extra-lease COUNT (4 bytes at `extra_lease_offset`) and then the 92-byte
+record at the end of the extra-lease area (which is the end of the file).  (Container layout and
+`extOff`/`numExtra` from `Tahoe/Storage/Mutable.lean`.) -/
+
+/-- primitive writes of the extra-slot branch of `_write_lease_record`, in program order -/
+def mutAddExtraLeaseOps (p : Path) (f : File) (rec : Bytes) : List IOp :=
+  [.pwrite p (Mutable.extOff f) (packU32 (Mutable.numExtra f + 1)),
+   .pwrite p (Mutable.extOff f + 4 + Mutable.numExtra f * 92) rec]
+
+/-- can a (restarted) server enumerate the leases?  `_read_lease_record` reads 92 bytes for every
+    counted slot and `unserialize` raises `struct.error` on a short read, which `_enumerate_leases`
+    does not catch: `get_leases`, `add_lease` (first-empty-slot search) and the lease crawler fail. -/
+def mutLeasesReadable (f : File) : Bool :=
+  decide (Mutable.extOff f + 4 + Mutable.numExtra f * 92 ≤ f.length)
+
+/-- share data of a mutable container as `readv` returns it -/
+def mutData (f : File) : Bytes := pread f 468 (Mutable.dataLength f)
 
 end Tahoe.Storage.Crash
